@@ -182,3 +182,114 @@ package tree
 //@   safety
 //@   loop 1 invariant 0 <= j
 //@   ensures [whole-buckets-only] isNilIface(result) ==> len(data) == len(i.buckets) * bucketBytes
+
+// ---- C08: the Data interface as the tree sees it. The two implementations are verified against it below. ----
+
+//@ func (Data).Clone
+//@   trusted
+//@   modifies nothing
+//@   ensures !isNilIface(result)
+
+//@ func (Data).New
+//@   trusted
+//@   modifies nothing
+//@   ensures !isNilIface(result)
+
+//@ func (*Xor).New
+//@   prop C08
+//@   safety
+//@   modifies nothing
+//@   ensures [fresh-empty-digest] typeOf(result) == *Xor && isFresh(result.(*Xor)) && forall k int :: 0 <= k && k < 32 ==> (*(result.(*Xor)))[k] == 0
+
+//@ func (*Xor).Clone
+//@   prop C08
+//@   safety
+//@   modifies nothing
+//@   ensures [fresh-copy] typeOf(result) == *Xor && isFresh(result.(*Xor)) && result.(*Xor) != x
+//@   ensures [same-digest] forall k int :: 0 <= k && k < 32 ==> (*(result.(*Xor)))[k] == (*x)[k]
+
+//@ func (*Iblt).Clone
+//@   prop C08
+//@   safety
+//@   modifies nothing
+//@   ensures [fresh-copy] typeOf(result) == *Iblt && isFresh(result.(*Iblt)) && result.(*Iblt) != i
+//@   ensures [same-shape] len(result.(*Iblt).buckets) == len(i.buckets) && result.(*Iblt).hc == i.hc && result.(*Iblt).hk == i.hk && result.(*Iblt).k == i.k
+//@   ensures [own-buckets] isFresh(result.(*Iblt).buckets)
+//@   ensures [same-buckets] forall j int :: 0 <= j && j < len(i.buckets) ==> result.(*Iblt).buckets[j] == i.buckets[j]
+
+// ---- C08: tree structure. Ownership: a node's Data is its own object (a fresh New/Clone or the
+// caller's leaf data), never the object another node holds. ----
+
+//@ func newNode
+//@   prop C08
+//@   modifies nothing
+//@   ensures [fields] result != nil && result.splitLC == splitLC && result.limitLC == limitLC && result.data == data && result.left == nil && result.right == nil
+//@   ensures [fresh] isFresh(result)
+
+//@ func (*tree).reRoot
+//@   prop C08
+//@   requires t.root != nil
+//@   ensures [old-root-becomes-left-child] t.root != nil && t.root.left == old(t.root) && t.root.right == nil
+//@   ensures [range-doubles] t.treeSize == 2 * old(t.treeSize) && t.root.splitLC == old(t.treeSize) && t.root.limitLC == 2 * old(t.treeSize)
+//@   ensures [own-copy-of-the-digest] t.root.data == ret(call (Data).Clone #1)
+
+//@ func (*tree).Load
+//@   prop C08
+//@   call store.data #1 requires arg(1) == ret(call (Data).New #1)
+//@   call store.data #2 requires arg(1) == ret(call (Data).Clone #1)
+//@   call store.left #1 requires did(call (Data).Clone #1)
+
+//@ func (node).isLeaf
+//@   inline
+
+//@ func (*tree).newBranch
+//@   prop C08
+//@   modifies *t.dirtyLeaves
+//@   ensures [covers-the-requested-range] result != nil && result.splitLC == (stop + start) / 2 && result.limitLC == stop
+//@   ensures [own-empty-digest] result.data == ret(call (Data).New #1) && result.right == nil
+//@   ensures [fresh] isFresh(result)
+
+//@ func (*tree).getNextNode
+//@   prop C08
+//@   modifies *n, *t.dirtyLeaves
+//@   requires n != nil
+//@   ensures [leaf-has-no-next] old(n.left) == nil ==> result == nil
+//@   ensures [left-below-split] old(n.left) != nil && clock < old(n.splitLC) ==> result == old(n.left)
+//@   ensures [right-at-or-above-split] old(n.left) != nil && clock >= old(n.splitLC) ==> result == n.right && result != nil
+//@   ensures [existing-right-kept] old(n.right) != nil ==> n.right == old(n.right)
+//@   ensures [node-otherwise-unchanged] n.left == old(n.left) && n.splitLC == old(n.splitLC) && n.limitLC == old(n.limitLC) && n.data == old(n.data)
+
+// The leaf recorded as dirty (and therefore persisted) is the leaf the walk ended in, under its own key.
+//@ func (*tree).updateOrCreatePath
+//@   prop C08
+//@   requires t.root != nil
+//@   loop 1 invariant t.root != nil
+//@   loop 2 invariant next != nil || (current != nil && current.left == nil)
+//@   call mapupdate #1 requires arg(2) != nil && arg(2).left == nil && arg(1) == arg(2).splitLC
+
+//@ func (*tree).Replace
+//@   prop C08
+//@   requires t.root != nil
+//@   loop 1 invariant t.root != nil
+//@   call store.data #1 requires arg(0).left == nil && clock < arg(0).limitLC
+//@   call mapupdate #1 requires arg(2).left == nil && arg(1) == arg(2).splitLC
+//@   ensures [data-installed-before-rebuild] did(call (*tree).rebuild #1) ==> did(call store.data #1)
+
+// Callers get their own copy: subtracting from it (ZeroTo) or handing it out (Root) never touches the tree.
+//@ func (*tree).Root
+//@   prop C08
+//@   requires t.root != nil
+//@   ensures [own-copy] result == ret(call (Data).Clone #1)
+
+//@ func (*tree).ZeroTo
+//@   prop C08
+//@   requires t.root != nil
+//@   loop 1 invariant next != nil && data == ret(call (Data).Clone #1)
+//@   ensures [own-copy] result.0 == ret(call (Data).Clone #1)
+
+//@ func (node).rebuild
+//@   prop C08
+//@   ensures [leaf-returned-as-is] n.left == nil ==> same(result.0, n) && isNilIface(result.1)
+//@   ensures [children-and-range-kept] result.0.left == n.left && result.0.right == n.right && result.0.splitLC == n.splitLC && result.0.limitLC == n.limitLC
+//@   ensures [parent-digest-is-an-own-copy] n.left != nil && isNilIface(ret(call (node).rebuild #1).1) ==> result.0.data == ret(call (Data).Clone #1)
+//@   ensures [right-child-added] n.left != nil && n.right != nil && isNilIface(ret(call (node).rebuild #1).1) && isNilIface(ret(call (node).rebuild #2).1) ==> did(call (Data).Add #1) && result.1 == ret(call (Data).Add #1)
